@@ -843,6 +843,204 @@ def gen_variant_cases(ctx: Ctx, rng, count: int):
 
 
 # ---------------------------------------------------------------------------------------
+# whole multi-variant series through the model (ops mchange / mconv / mcum): rows shared by the variants, trim over
+# ALL variants, shift arguments of any Python type
+# ---------------------------------------------------------------------------------------
+
+def canon_mseries(c: str, y) -> str:
+    """start + every column; non-finite -> nan; leading/trailing rows that are nan in every variant dropped"""
+    if y.start is None or y.data.size == 0:
+        return "empty"
+    cols = [[enc_cell(c, float(v)) for v in y.data[:, j]] for j in range(y.data.shape[1])]
+    n = len(cols[0])
+    lo, hi = 0, n
+    while lo < hi and all(col[lo] == "nan" for col in cols):
+        lo += 1
+    while hi > lo and all(col[hi - 1] == "nan" for col in cols):
+        hi -= 1
+    if lo == hi:
+        return "empty"
+    return f"{LETTER[type(y.start)]}:{int(y.start.serial) + lo}:" + "|".join(",".join(col[lo:hi]) for col in cols)
+
+
+def canon_model_mline(b: str) -> str:
+    if "inf" not in b or b.count(":") != 2:
+        return b
+    f, start, body = b.split(":")
+    cols = [["nan" if x == "inf" else x for x in col.split(",")] for col in body.split("|")]
+    n = len(cols[0])
+    lo, hi = 0, n
+    while lo < hi and all(col[lo] == "nan" for col in cols):
+        lo += 1
+    while hi > lo and all(col[hi - 1] == "nan" for col in cols):
+        hi -= 1
+    return "empty" if lo == hi else f"{f}:{int(start) + lo}:" + "|".join(",".join(col[lo:hi]) for col in cols)
+
+
+def mlines_agree(c: str, a: str, b: str, exact: bool) -> bool:
+    b = canon_model_mline(b)
+    if a == b:
+        return True
+    if exact:
+        return False
+    pa, pb = a.split(":"), b.split(":")
+    if len(pa) != 3 or len(pb) != 3 or pa[:2] != pb[:2]:
+        return False
+    ca, cb = pa[2].split("|"), pb[2].split("|")
+    if len(ca) != len(cb):
+        return False
+    return all(lines_agree(c, "", f"X:0:{u}", f"X:0:{v}", False) for u, v in zip(ca, cb))
+
+
+SHIFTARGS = [("f=-1/1", -1.0), ("f=-2/1", -2.0), ("f=-3/2", -1.5), ("f=0/1", 0.0), ("f=1/1", 1.0), ("s=foo", "foo"), ("s=YOY", "YOY"),
+             ("0", 0), ("2", 2)]
+
+
+def gen_shiftarg(rng, f: str):
+    """(word for the model, Python value): mostly negative ints and keywords, sometimes floats / other strings / leads"""
+    r = rng.random()
+    if r < 0.12:
+        return rng.choice(SHIFTARGS)
+    sh = gen_shift(rng, f)
+    return (str(sh), sh)
+
+
+def gen_m_cases(ctx: Ctx, rng, count: int):
+    cases = []
+    for _ in range(count):
+        f = rng.weighted([("Q", 4), ("M", 3), ("Y", 2), ("H", 2), ("D", 1), ("I", 2)])
+        nv = rng.weighted([(1, 1), (2, 3), (3, 3), (4, 1)])
+        n = rng.randint(3, 18)
+        start = gen_start(rng, f)
+        what = rng.weighted([("mchange", 5), ("mconv", 1), ("mcum", 4)])
+        if what == "mchange":
+            kind = rng.choice(FLEX + FLEX + ANNUAL)
+            cls = "dyadic" if kind in ("diff", "adiff") and rng.chance(0.7) else ("zeros" if rng.chance(0.08) else "positive")
+        elif what == "mconv":
+            kind = rng.choice(CONV)
+            cls = "positive"
+        else:
+            kind = rng.choice(CUMS)
+            cls = "dyadic" if kind == "cum_diff" and rng.chance(0.7) else "positive"
+        cols = []
+        for j in range(nv):
+            col = punch(rng, gen_values(rng, n, cls, f), rng.choice([0.0, 0.0, 0.15]), False)
+            # variants missing at DIFFERENT edges (and sometimes entirely)
+            for i in range(rng.choice([0, 0, 1, 2, 3])):
+                if i < n: col[i] = None
+            for i in range(rng.choice([0, 0, 1, 2, 3])):
+                if i < n: col[n - 1 - i] = None
+            if rng.chance(0.04):
+                col = [None] * n
+            cols.append(col)
+        word, val = gen_shiftarg(rng, f)
+        case = {"op": what, "kind": kind, "freq": f, "start": start, "shiftword": word, "shift": val,
+                "values": [list(r) for r in zip(*cols)], "exact": cls == "dyadic"}
+        if what == "mcum":
+            lo, hi = start, start + n - 1
+            k = -val if isinstance(val, int) and not isinstance(val, bool) and val < 0 else 1
+            direction = rng.choice(["forward", "forward", "backward"])
+            sp = rng.weighted([("explicit", 6), ("default", 2 if direction == "forward" else 0), ("open", 1 if direction == "forward" else 0)])
+            if sp == "default":
+                case["span"] = None
+            elif sp == "open":
+                case["span"] = [None if rng.chance(0.5) else lo + k, None if rng.chance(0.5) else hi, 1]
+            elif direction == "forward":
+                a = rng.randint(min(lo + k, hi), hi); case["span"] = [a, rng.randint(a, hi), rng.choice([1, 1, 1, 2])]
+            else:
+                a = rng.randint(lo, max(lo, hi - k)); case["span"] = [a, rng.randint(lo, a), -1]
+            m = rng.weighted([(max(1, nv - 1), 3), (nv, 3), (1, 1)])
+            ik = rng.weighted([("series", 6), ("list", 2), ("scalar", 1), ("default", 1)])
+            # the change series is the implementation's own change of `cols` (or, sometimes, the data themselves)
+            case["change_of_values"] = rng.chance(0.8)
+            if ik == "series":
+                icols = [list(c) for c in cols[:m]] if rng.chance(0.6) else [gen_values(rng, n, cls, f) for _ in range(m)]
+                case["initial"] = {"kind": "series", "start": start + rng.choice([0, 0, 0, -1, 1]), "values": [list(r) for r in zip(*icols)]}
+            elif ik == "list":
+                case["initial"] = {"kind": "list", "values": [rng.dyadic(1, 6, 2) for _ in range(m)]}
+            elif ik == "scalar":
+                case["initial"] = {"kind": "scalar", "value": rng.dyadic(1, 6, 2)}
+            else:
+                case["initial"] = {"kind": "default"}
+        cases.append(case)
+        ctx.count(f"m:{what}:{kind}")
+        ctx.count(f"m_variants:{nv}")
+        ctx.count("m_shiftarg:" + ("int<0" if isinstance(val, int) and val < 0 else "int>=0" if isinstance(val, int) else
+                                   "float" if isinstance(val, float) else "keyword" if val in KEYWORDS else "other-string"))
+    return cases
+
+
+def run_m(ctx: Ctx, cases, stream="multi"):
+    lines, impl, metas = [], [], []
+    for case in cases:
+        f, start, kind, what = case["freq"], case["start"], case["kind"], case["op"]
+        rows = rows_of(case)
+        nv = len(rows[0])
+        c = "f" if kind in NEEDS_FLOAT or not case.get("exact") else "q"
+        x = make_series(f, start, rows)
+        if x.start is None:
+            continue        # (an all-missing block is `Series()`: no variants to speak of)
+        colw = lambda ser: [enc_series(c, f, int(ser.start.serial), [float(v) for v in ser.data[:, j]]) for j in range(ser.data.shape[1])]
+        try:
+            with warnings.catch_warnings(), np.errstate(all="ignore"):
+                warnings.simplefilter("ignore")
+                if what == "mchange":
+                    line = f"mchange {c} {kind} {case['shiftword']} " + " ".join(colw(x))
+                    y = getattr(ir, kind)(x) if kind in ANNUAL else getattr(ir, kind)(x, case["shift"])
+                elif what == "mconv":
+                    line = f"mconv {c} {kind} " + " ".join(colw(x))
+                    y = getattr(ir, kind)(x)
+                else:
+                    ch = x
+                    if case.get("change_of_values"):
+                        try:
+                            ch = getattr(ir, kind[4:])(x, case["shift"] if isinstance(case["shift"], int) and case["shift"] < 0 or case["shift"] in KEYWORDS else -1)
+                        except Exception:
+                            ch = x
+                    if ch.start is None or ch.data.shape[1] != nv:
+                        continue
+                    ini = case["initial"]
+                    if ini["kind"] == "series":
+                        irows = [[NAN if v is None else float(v) for v in r] for r in ini["values"]]
+                        iw = [enc_series(c, f, ini["start"], [r[i] for r in irows]) for i in range(len(irows[0]))]
+                        iv = make_series(f, ini["start"], ini["values"])
+                        if iv.start is None or iv.data.shape[1] != len(irows[0]):
+                            continue
+                    elif ini["kind"] == "list":
+                        iw = ["v=" + enc_cell(c, v) for v in ini["values"]]; iv = [float(v) for v in ini["values"]]
+                    elif ini["kind"] == "scalar":
+                        iw = ["v=" + enc_cell(c, ini["value"])]; iv = float(ini["value"])
+                    else:
+                        iw = ["none"]; iv = None
+                    sp = case["span"]
+                    spw = "none" if sp is None else f"{f}:{'-' if sp[0] is None else sp[0]}:{'-' if sp[1] is None else sp[1]}:{sp[2]}"
+                    line = f"mcum {c} {kind} {case['shiftword']} {spw} {nv} " + " ".join(colw(ch)) + " " + " ".join(iw)
+                    span = None if sp is None else ir.Span(None if sp[0] is None else CLS[f](sp[0]), None if sp[1] is None else CLS[f](sp[1]), sp[2])
+                    y = getattr(ir, kind)(ch, case["shift"], initial=iv, span=span)
+            out = canon_mseries(c, y)
+        except Exception as e:
+            out = err_kind(e)
+        lines.append(line); impl.append(out); metas.append((c, case))
+    model = ctx.model("C13", lines)
+    ctx.evaluations += len(lines)
+    for out in impl:
+        ctx.count(f"impl_reply:{stream}:" + (out if out.startswith("err") or out in ("empty", "bad-op") else "series"))
+    if lines:
+        ctx.sample({"stream": stream, "request": lines[0][:400], "implementation": impl[0][:300]})
+    if model is None:
+        return
+    ctx.streams_compared[stream] = ctx.streams_compared.get(stream, 0) + len(lines)
+    for line, (c, case), a_, b_ in zip(lines, metas, impl, model):
+        if not mlines_agree(c, a_, b_, bool(case.get("exact")) and case["kind"] in ("diff", "adiff", "cum_diff") and c == "q"
+                            and case.get("initial", {}).get("kind") != "series_random"):
+            if len([d for d in ctx.disagreements if d["stream"] == stream]) < 25:
+                ctx.disagree(stream, {**case, "line": None, "request": line[:600]}, a_, b_)
+        elif ":" in a_:
+            edges = tuple(sorted(set((col.split(",")[0] == "nan", col.split(",")[-1] == "nan") for col in a_.split(":")[2].split("|"))))
+            ctx.nontriv(("multi", case["op"], case["kind"], case["freq"], len(case["values"][0]), edges))
+
+
+# ---------------------------------------------------------------------------------------
 # the same argument objects reused across several calls
 # ---------------------------------------------------------------------------------------
 
@@ -1049,6 +1247,7 @@ def run(ctx: Ctx):
     run_lines(ctx, "conv", gen_conv_lines(ctx, rng.fork("conv"), ctx.n(600, 12000)))
     run_lines(ctx, "cum", gen_cum_lines(ctx, rng.fork("cum"), ctx.n(3500, 70000)))
     run_cumv(ctx, gen_cumv_cases(ctx, rng.fork("cumv"), ctx.n(400, 8000)))
+    run_m(ctx, gen_m_cases(ctx, rng.fork("multi"), ctx.n(1500, 25000)))
     for case in FIXED_ORACLE_CASES:
         run_oracle_case(ctx, case)
     xrng = ctx.rng.fork("oracle-extra")
@@ -1102,6 +1301,11 @@ def search(ctx: Ctx, seeds):
 
 def replay(ctx: Ctx, payload):
     cases = []
+    if isinstance(payload.get("case"), dict) and payload["case"].get("line", "") is None:
+        payload["case"].pop("line")
+    for d in payload.get("disagreements", []):
+        if isinstance(d.get("case"), dict) and d["case"].get("line", "") is None:
+            d["case"].pop("line")
     if isinstance(payload.get("case"), dict):
         cases.append(payload["case"])
     # a "tie-no-longer-checks" replay carries the disagreeing request lines
@@ -1117,5 +1321,7 @@ def replay(ctx: Ctx, payload):
             run_lines(ctx, "replay", [(ws[2], ws[1], line, bool(case.get("exact")))])
         elif case.get("op") == "cumv":
             run_cumv(ctx, [case], "replay")
+        elif case.get("op") in ("mchange", "mconv", "mcum"):
+            run_m(ctx, [case], "replay")
         elif "op" in case:
             run_oracle_case(ctx, case)
